@@ -90,7 +90,8 @@ Section L.
     pi_covers : covers (pb_sorter b);
     pi_gnodes : forall x, In x (gnodes (pb_sorter b)) <-> In x (pids (pb_tasks b)) /\ ~ In x h;
     pi_gedges : gedges (pb_sorter b) = closure_edges (pids (pb_tasks b)) (pb_edges b);
-    pi_dag : pdagf (pb_tasks b) = DagOk (pb_edges b) (pb_desel b);
+    (* (the deselected tasks are those of all graphs so far: the skip marker stays on a task) *)
+    pi_dag : exists d, pdagf (pb_tasks b) = DagOk (pb_edges b) d;
     pi_incl : incl ts0 (pb_tasks b);
     pi_rep_h : forall i o, In (i, o) (pb_reports b) -> In i h;
     pi_h_rep : forall i, In i h -> exists o, In (i, o) (pb_reports b);
@@ -120,7 +121,7 @@ Section L.
     - exact CV.
     - rewrite G. intros x; tauto.
     - exact GE.
-    - exact dag0.
+    - exists d0. exact dag0.
     - apply incl_refl.
     - intros i o [].
     - intros i [].
@@ -175,9 +176,8 @@ Section L.
                                In (tid (base u)) h).
     { intros u t' Hu Ht' Hi Hf.
       assert (R : Reach (pb_edges b) (tid (base u)) i).
-      { rewrite <- Hi. apply (feeds_reach (pb_tasks b) (pb_edges b) (pb_desel b) u t'); auto.
-        - apply (pi_dag b h L).
-        - apply (pi_incl b h L). exact Hu. }
+      { rewrite <- Hi. destruct (pi_dag b h L) as [dd DD]. apply (feeds_reach (pb_tasks b) (pb_edges b) dd u t'); auto.
+        apply (pi_incl b h L). exact Hu. }
       apply (pi_fin b h L).
       assert (Ed : In (tid (base u), i) (gedges (pb_sorter b))).
       { rewrite (pi_gedges b h L). apply closure_edges_spec. repeat split.
@@ -333,7 +333,7 @@ Section L.
         * intros x. unfold rebuild. cbn [gnodes done]. rewrite remove_all_In.
           rewrite (FINA x). reflexivity.
         * reflexivity.
-        * exact DG.
+        * exists d'. exact DG.
         * intros x Hx. apply INC. apply (pi_incl b h L). exact Hx.
         * apply REP_H. intros j o [Q|Q]; [inversion Q; auto|auto].
         * intros j Hj. apply in_app_or in Hj. destruct Hj as [Hj|[<-|[]]].
@@ -372,7 +372,7 @@ Section L.
     { destruct V as (_ & I & _). apply I. left; reflexivity. }
     apply ready_spec in Hready. destruct Hready as (Hg & _ & Hpred).
     assert (R : Reach (pb_edges b) (tid (base u)) i).
-    { rewrite <- Hi. apply (feeds_reach (pb_tasks b) (pb_edges b) (pb_desel b) u t); auto. apply (pi_dag b h L). }
+    { rewrite <- Hi. destruct (pi_dag b h L) as [dd DD]. apply (feeds_reach (pb_tasks b) (pb_edges b) dd u t); auto. }
     apply (pi_fin b h L).
     assert (Ed : In (tid (base u), i) (gedges (pb_sorter b))).
     { rewrite (pi_gedges b h L). apply closure_edges_spec. repeat split.
@@ -398,7 +398,7 @@ Section L.
     assert (NE : gnodes (pb_sorter b) <> []).
     { unfold is_active in A. destruct (gnodes (pb_sorter b)); [discriminate|discriminate]. }
     assert (AC : acyclic (pb_edges b)).
-    { pose proof (pi_dag b h L) as D. unfold pdag in D.
+    { destruct (pi_dag b h L) as [dd D]. unfold pdag in D.
       destruct (create_dag_ok is_word lower c _ _ _ D) as (_ & _ & AE & _ & _ & HC).
       exact (has_cycle_false_acyclic _ HC). }
     assert (SO : strict_order (gedges (pb_sorter b))).
